@@ -160,24 +160,16 @@ func runSyncMark(a *Analyzer, r *Results, isForwardCall func(*ssa.Call) bool) {
 				if !ok || !isForwardCall(fw) {
 					continue
 				}
-				for _, ref := range *fw.Referrers() {
-					bo, ok := ref.(*ssa.BinOp)
-					if !ok || (bo.Op != token.NEQ && bo.Op != token.EQL) {
+				// the test of the hand-off's verdict (an error compared with nil, or a bool "delivered"), in any polarity
+				for _, tb := range f.Blocks {
+					fs := errFailingSucc(tb, fw)
+					if fs < 0 {
 						continue
 					}
-					for _, r2 := range *bo.Referrers() {
-						ifi, ok := r2.(*ssa.If)
-						if !ok {
-							continue
-						}
-						succ := ifi.Block().Succs[1]
-						if bo.Op == token.EQL {
-							succ = ifi.Block().Succs[0]
-						}
-						// the success successor must not also be reachable through the failure edge
-						if len(succ.Preds) == 1 && (succ == b || succ.Dominates(b)) {
-							return true
-						}
+					succ := tb.Succs[1-fs]
+					// the success successor must not also be reachable through the failure edge
+					if len(succ.Preds) == 1 && (succ == b || succ.Dominates(b)) {
+						return true
 					}
 				}
 			}
@@ -341,7 +333,8 @@ func runSyncMark(a *Analyzer, r *Results, isForwardCall func(*ssa.Call) bool) {
 					return
 				}
 				seen[x] = true
-				if p2, ok := x.(*ssa.Phi); ok {
+				if p2, ok := x.(*ssa.Phi); ok && carries(p2, phi, map[ssa.Value]bool{}) {
+					// a join on the way back to the loop header that merges the old mark with an update
 					for i, e := range p2.Edges {
 						walk(e, p2.Block().Preds[i], seen)
 					}
@@ -362,4 +355,22 @@ func runSyncMark(a *Analyzer, r *Results, isForwardCall func(*ssa.Call) bool) {
 	if nUpd == 0 {
 		r.Undecided = append(r.Undecided, "U5: the most-recent-sync mark is never advanced (anchor)")
 	}
+}
+
+// carries: the phi (transitively) merges the loop variable `mark` with other values, i.e. it lies on the variable's way
+// back to the loop header; a phi that does not is simply a value (e.g. "0 for a nil block, else its height").
+func carries(p *ssa.Phi, mark *ssa.Phi, seen map[ssa.Value]bool) bool {
+	if seen[p] {
+		return false
+	}
+	seen[p] = true
+	for _, e := range p.Edges {
+		if e == ssa.Value(mark) {
+			return true
+		}
+		if q, ok := e.(*ssa.Phi); ok && carries(q, mark, seen) {
+			return true
+		}
+	}
+	return false
 }
